@@ -1,6 +1,6 @@
 """C27 — a database disconnect invalidates the connection and blocks silent continuation.  Under proof:
 Connection._handle_dbapi_exception (every exit: per-call flags reset; classified as a disconnect ==> the Connection holds no DBAPI
-connection afterwards, the pool is told only together with that; not a disconnect ==> nothing invalidated), Connection.invalidate
+connection afterwards, the pool is told only together with that; not a disconnect ==> nothing invalidated), Connection.invalidate, _revalidate_connection (no reconnect while a transaction is pending)
 and the closed / invalidated / _still_open_and_dbapi_connection_is_valid properties; RootTransaction end-of-life (_close_impl /
 _do_commit / _deactivate_from_connection): the dead transaction is detached from the connection on every exit, also when the DBAPI
 rollback itself raises.  The fault enumeration on a fake DBAPI (checks/C27_explore.py) is the bounded complement."""
@@ -18,5 +18,5 @@ def run(run, tier, seed, args):
         "abstract contracts: Connection._rollback_impl / _commit_impl may raise anything (a disconnect) and do not touch the transaction links; NestedTransaction._cancel only touches savepoint handles",
         "_handle_dbapi_exception: quick tier proves the paths without handle_error listeners (dialect._has_events false, 66 paths); the thorough tier all paths with listeners that may re-classify the error, return a replacement exception or raise",
         "assumed in _handle_dbapi_exception: sys.exc_info()[1] is not None (the function is only called while an exception is handled); dialect.is_disconnect / util.is_exit_exception / in_transaction are arbitrary booleans; isinstance against the driver's Error class is an uninterpreted predicate; DBAPIError.instance / ExceptionContextImpl return new objects; _rollback_impl / _safe_close_cursor / context.handle_dbapi_exception do not touch the modelled state; Pool._invalidate and the pooled connection's invalidate() do not raise (a BaseException out of the DBAPI close() would: known finding of C26)",
-        "_revalidate_connection (reconnect after invalidation) and the pool are in the bounded complement (fault enumeration)",
+        "_revalidate_connection is under proof too: it refuses (PendingRollbackError) while a transaction is pending and (ResourceClosedError) on a closed connection; Engine.raw_connection is an abstract callee that returns a fresh pooled connection or raises; the pool itself is in the bounded complement and C25/C26",
     ])
